@@ -580,8 +580,11 @@ func c03AuxFingerprint(args []string) int {
 	defer f.Close()
 	w := bufio.NewWriter(f)
 	defer w.Flush()
+	fw.StartWatchdog()
 	for i := 0; i < c03CrossTotal(); i++ {
 		c := c03CrossCase(seed, i)
+		fmt.Fprintf(os.Stderr, "case %d\n", i)
+		fw.TouchWatchdog()
 		o := run.Exec(c.Docs[0], false)
 		fmt.Fprintf(w, "%d %s\n", i, fingerprint(o))
 	}
@@ -599,6 +602,22 @@ func c03Post(d *fw.Driver) {
 		cmd := exec.Command(d.Self, "aux", "c03fp", strconv.FormatUint(d.Seed, 10), out)
 		cmd.Env = append(os.Environ(), fmt.Sprintf("GOMAXPROCS=%d", []int{1, 4, 16, 2, 8, 3, 16, 1}[p%8]))
 		if b, err := cmd.CombinedOutput(); err != nil {
+			if ee, ok := err.(*exec.ExitError); ok && ee.ExitCode() == fw.ExitHang {
+				// the watchdog of the fresh process fired: an execution blocked or ran away after the ones before it
+				last := -1
+				for _, l := range strings.Split(string(b), "\n") {
+					if strings.HasPrefix(l, "case ") {
+						fmt.Sscan(strings.TrimPrefix(l, "case "), &last)
+					}
+				}
+				var c *fw.Case
+				if last >= 0 {
+					c = c03CrossCase(d.Seed, last)
+					c.Check, c.Family = "C03", "multifault"
+				}
+				d.AddViolation("fresh-process-hangs", fmt.Sprintf("a fresh process that runs the fixed list of projects one after another hangs at project %d (each of them ends when run alone): %s", last, fw.Short(b, 600)), c)
+				return
+			}
 			d.AddInconclusive(fmt.Sprintf("fingerprint process %d failed: %v %s", p, err, fw.Short(b, 300)))
 			return
 		}
